@@ -608,6 +608,38 @@ def r_flatmap(body):
         body = body[:j] + new + body[close2 + 1:]
 
 
+def r_refmut(body):
+    """match X { Some(ref mut V) => E, None => B }   (X an owned local Option)
+         ->  if X.is_some() { let mut V__ = X.unwrap(); E[V := V__]; X = Some(V__); } else B
+    take the value out, run the arm on it, put it back: what a `ref mut` binding on an owned local does (R-refmut)"""
+    log = []
+    while True:
+        m = code_mask(body)
+        mo = None
+        for x in re.finditer(r"\bmatch\s+(\w+)\s*\{\s*Some\(\s*ref\s+mut\s+(\w+)\s*\)\s*=>\s*", body):
+            if m[x.start()]:
+                mo = x
+                break
+        if mo is None:
+            return body, log
+        X, V = mo.group(1), mo.group(2)
+        ob = body.index("{", mo.start())
+        cb = match_close(body, m, ob)
+        # arm expression: up to the top-level comma before `None =>`
+        rest = body[mo.end():cb]
+        nm = re.search(r",\s*None\s*=>\s*", rest)
+        if not nm:
+            raise Unsupported("R-refmut: only `match X { Some(ref mut v) => E, None => B }` is rewritten")
+        E = rest[:nm.start()].strip()
+        B = rest[nm.end():].strip().rstrip(",").strip()
+        if not B.startswith("{"):
+            B = "{ " + B + " }"
+        E2 = re.sub(r"\b%s\b" % re.escape(V), V + "__", E)
+        new = "if %s.is_some() { let mut %s__ = %s.unwrap(); %s; %s = Some(%s__); } else %s" % (X, V, X, E2, X, V, B)
+        log.append(("R-refmut", norm_ws(body[mo.start():cb + 1])[:160], norm_ws(new)[:200]))
+        body = body[:mo.start()] + new + body[cb + 1:]
+
+
 def r_continue(body):
     """if C { continue; } REST  (statements of one loop body)  ->  if C { } else { REST }
     (definition of `continue` when it is the only statement of an `if` directly in the loop body; R-continue)"""
@@ -1242,6 +1274,9 @@ def emit_fn(f, udir, unit_props, recs, log_global):
             log += l
         if "iife" in rewrites:
             body, l = r_iife(body)
+            log += l
+        if "refmut" in rewrites:
+            body, l = r_refmut(body)
             log += l
         if "continue" in rewrites:
             body, l = r_continue(body)
